@@ -2,7 +2,8 @@
 
 `truncation_census` lists the iterator adapters that can silently drop elements (`zip` stops at the shorter side; `take`, `skip`,
 `step_by`, `take_while`, `skip_while`, `nth`) in the checker and the generator. A `zip` is accepted mechanically when an enclosing
-condition (an `if`, an `else if`, a match-arm guard) compares the lengths of its two sides for equality; every other site must be
+condition (an `if`, an `else if`, a match-arm guard) compares the lengths of its two sides for equality, or when both sides are
+element-for-element images of the same collection (`xs.iter().map(..)` zipped with `xs.iter()`); every other site must be
 in the reviewed table below with the reason why nothing that matters is dropped.
 """
 import re
@@ -34,6 +35,39 @@ def _ancestors(root):
                 if isinstance(v, (dict, list)):
                     stack.append((v, anc))
     return out
+
+
+ONE_TO_ONE = ("iter", "into_iter", "iter_mut", "cloned", "copied", "clone", "map", "enumerate", "collect", "to_vec", "as_slice", "rev", "to_owned", "by_ref", "inspect")
+
+
+def _same_length_source(e, body, depth=0, ty=""):
+    """the collection `e` has one element per element of: peel adapters that keep the number of elements (`iter`, `cloned`, `map`,
+    `enumerate`, `collect`, ..), the free function `enumerate(..)`, references; follow an immutable `let` of the function to its
+    initialiser. -> source text, or None if something else is met"""
+    e = strip(e)
+    for _ in range(12):
+        k = e.get("k")
+        if k == "mcall" and e["m"] == "collect" and not re.match(r"(::)?<?\s*Vec\b", (e.get("tf") or "").replace(" ", "")) and not re.match(r"Vec\b", ty.replace(" ", "")):
+            return None         # collected into something that may merge elements (a set, a map)
+        if k == "mcall" and e["m"] in ONE_TO_ONE:
+            e = strip(e["recv"])
+        elif k == "call" and e["f"].get("k") == "path" and e["f"]["p"].split("::")[-1] == "enumerate" and len(e["args"]) == 1:
+            e = strip(e["args"][0])
+        elif k in ("ref", "paren"):
+            e = strip(e["e"])
+        else:
+            break
+    if e.get("k") == "path" and "::" not in e["p"] and depth < 3:
+        def bare(p_):
+            return p_["p"] if p_.get("k") == "ptype" else p_
+        lets = [n for n in walk(body) if n.get("k") == "local" and bare(n["pat"]).get("k") == "pident" and bare(n["pat"])["name"] == e["p"]]
+        if len(lets) == 1 and not bare(lets[0]["pat"]).get("mut") and lets[0].get("init") is not None:
+            return _same_length_source(lets[0]["init"], body, depth + 1, lets[0]["pat"].get("ty", "") if lets[0]["pat"].get("k") == "ptype" else "")
+        if lets:
+            return None
+    if e.get("k") in ("path", "field"):
+        return src(e).replace(" ", "")
+    return None
 
 
 def _len_guard(cond_src, a_ids, b_ids):
@@ -82,6 +116,11 @@ def truncation_census(chk, facts, rule, mods=("check",)):
                         ds = disjuncts(c)
                         if ds and all(_len_guard(d_, a_ids, b_ids) for d_ in ds):
                             ok_auto = True
+            if node["m"] == "zip" and node["args"] and not ok_auto:
+                sa, sb = _same_length_source(node["recv"], f["body"]), _same_length_source(node["args"][0], f["body"])
+                if sa is not None and sa == sb:
+                    chk.ob(rule, f"trunc:{f['qual']}|zip|same-source", True, f"{f['qual']}: `{src(node)[:60]}`: both sides have one element per element of `{sa}`")
+                    continue
             if ok_auto:
                 chk.ob(rule, f"trunc:{f['qual']}|{node['m']}|guarded", True, f"{f['qual']}: `{src(node)[:60]}` under an equal-length guard")
                 continue
